@@ -35,7 +35,12 @@ func init() {
 	auxSched("C17", []string{"J-"}, func(sig string) bool {
 		return strings.HasPrefix(sig, "local-") || sig == "panic"
 	})
-	auxSched("C14", []string{"B-", "G-", "H-"}, func(sig string) bool {
+	// C04: discovery from a digest against the first relayed delta (L), the
+	// sweep against re-discovery (G), first heartbeat against liveness (H)
+	auxSched("C04", []string{"L-", "G-", "H-"}, func(sig string) bool {
+		return strings.HasPrefix(sig, "routing-table") || strings.HasPrefix(sig, "expired-node") || strings.HasPrefix(sig, "node-lost") || sig == "panic"
+	})
+	auxSched("C14", []string{"B-", "G-", "H-", "L-"}, func(sig string) bool {
 		return strings.HasPrefix(sig, "routing-table") || strings.HasPrefix(sig, "expired-node") || strings.HasPrefix(sig, "remote-node") || sig == "panic"
 	})
 }
